@@ -34,6 +34,7 @@ verus! {
 //@@ INCLUDE lib/div_const_lemmas.rs
 //@@ INCLUDE lib/dc2_stubs.rs
 //@@ INCLUDE lib/dc2_lemmas.rs
+//@@ INCLUDE lib/dc2_lemmas_rem.rs
 //@@ SIG integer/primitive/extend_word.rs
 //@@ SIG integer/primitive/double_word.rs
 //@@ SIG integer/primitive/shrink_dword.rs
